@@ -21,7 +21,13 @@ RULE = ("samples of 1-12 trees over 3-8 taxa (namespace sometimes with a hole = 
         "(percentage, label with 0/1/2/3/4/6 places, set_edge_lengths None/keep/support/clear/mean-length/median-length, minimum_edge_length, "
         "weights making dyadic frequencies such as 1/32 = rounding ties, rarely NOTHING counted) on a target in or out of encoded form, through "
         "TreeArray or SplitDistribution, everything it writes compared node by node with the model; collapse targets whose rooting does not "
-        "fit the sample (deliberate refusal); non-trivial = at least two distinct topologies")
+        "fit the sample (deliberate refusal); op `refused`: histories of OFFERS to a TreeArray (add_tree, batch add_trees), a SplitDistribution "
+        "and a TreeList-derived distribution under every combination of use_tree_weights / ignore_node_ages / ignore_edge_lengths, in which "
+        "1-3 offers are ones the library refuses (non-ultrametric tree while node ages are collected, tree of another namespace, rooting the "
+        "array does not take, leaf taxon outside the namespace, non-numeric weight) and the caller carries on; afterwards frequencies, counts, "
+        "value lists, consensus, supports, summaries, collapse, scores/MCC and the totals are judged against the trees actually held, and the "
+        "history (refused offers as `X` events) goes through the cache model; merges INTO an empty array built with the opposite "
+        "use_tree_weights; non-trivial = at least two distinct topologies")
 MODELLED_NOT_VERIFIED = [
     "C05: the Lean model (Model/C05.lean on C01/C04) is hand-written from SplitDistribution.count_splits_on_tree / calc_freqs / consensus_tree, "
     "TreeArray.calculate_*_of_split_supports, summarize_splits_on_tree (support) and collapse_edges_with_less_than_minimum_support; tied per "
@@ -80,12 +86,13 @@ EXPLANATION = ("Theorems (all about the definitions the driver runs): frequency 
                "roundHalfEven_spec (label rounding: nearest, ties to even); collapseCall_spec + collapseRefuses_spec (the call refuses on "
                "rooting grounds exactly when target and sample differ in rootedness); treeRecOf_unrooted_basal_dup (encoded seed of degree 2 = the known-finding class: both basal edges carry the same normalised "
                "split, the record lists it twice, Nodup fails — with treeRecOf_unrooted_hts every not-rooted drawing is settled); "
-               "treeRecOf_unrooted_hts_drawn is the former "
+               "refused_offers_invisible (a history with refused offers answers every query as the history with them erased: `Ev.refused` "
+               "leaves the cache state unchanged); treeRecOf_unrooted_hts_drawn is the former "
                "`_partial` special case of treeRecOf_unrooted_hts (no `_partial` theorem is left; the uncovered not-rooted class is exactly "
                "the known finding `basal bifurcation survives`).")
 
-OPS = ["summ", "collapse", "incremental", "more", "attain", "merge", "annot"]
-OP_WEIGHTS = [0.32, 0.13, 0.12, 0.10, 0.11, 0.10, 0.12]
+OPS = ["summ", "collapse", "incremental", "more", "attain", "merge", "annot", "refused"]
+OP_WEIGHTS = [0.28, 0.12, 0.11, 0.09, 0.10, 0.09, 0.10, 0.11]
 THRESHOLDS = [None, 0.0, 0.25, 0.5, "GTH", 0.625, 0.75, 1.0]
 ROOTED = {"R": True, "U": False, "N": None}
 DEFECT_BASAL = "basal-split-counted-twice"
@@ -902,6 +909,324 @@ def compare_annot2(o, impl, d):
     return None
 
 
+# ------------------------------------------------------------------ histories with REFUSED offers (op `refused`)
+REFUSAL_KINDS = ["non-ultrametric", "other-namespace", "rooting", "foreign-taxon", "bad-weight"]
+REFUSED_ROUTES = ["TreeArray.add_tree", "TreeArray.add_trees", "SplitDistribution", "TreeList-derived"]
+
+
+def gen_refused(ctx, dendropy):
+    """trees are OFFERED one by one (or in a batch) to a TreeArray / a SplitDistribution / a distribution derived from a TreeList, under
+    every combination of use_tree_weights, ignore_node_ages, ignore_edge_lengths; some offers are ones the library refuses (a tree
+    that is not ultrametric while node ages are collected, a tree of another namespace, a rooting state the array does not take,
+    a leaf whose taxon is not in the namespace, a weight that is not a number); the caller catches the exception and carries on.
+    Afterwards every observable must be that of the collection WITHOUT the refused offers."""
+    rng = ctx.rng
+    ages = rng.random() < 0.5
+    if ages:
+        n = rng.randint(3, 6)
+        tns = tu.make_namespace(dendropy, n)
+        base_shape = tu.rand_shape(rng, n, p_poly=0.0, p_unary=0.0)
+        trees = [ultrametric_on(dendropy, rng, tns, list(tns), base_shape if rng.random() < 0.6 else None) for _ in range(rng.randint(1, 7))]
+    else:
+        tns, trees = gen_sample(dendropy, rng, ctx)
+        Fmask = members_mask(tns)
+        if len({t.is_rooted for t in trees}) != 1 or any(basal_split(t) is not None for t in trees) \
+                or any(tu.leafset_masks(t)[id(t.seed_node)] != Fmask for t in trees):
+            return None
+        for t in trees:
+            t.weight = None
+    wmode = rng.choice(["none", "none", "dyadic", "ones"])
+    for t in trees:
+        t.weight = None if wmode == "none" else (1.0 if wmode == "ones" else rng.choice([0.5, 1.0, 2.0, 3.0]))
+    use_w = rng.random() < 0.5
+    route = rng.choice(REFUSED_ROUTES)
+    kinds = ["other-namespace", "foreign-taxon"]
+    if ages:
+        kinds += ["non-ultrametric"] * 3
+    if route.startswith("TreeArray") and trees[0].is_rooted is not None:
+        kinds.append("rooting")
+    if use_w:
+        kinds.append("bad-weight")
+    k = len(trees)
+    offers = [["good", i] for i in range(k)]
+    for _ in range(rng.randint(1, 3)):
+        # never before the first accepted tree on an array: the first offer fixes the array's rooting state
+        pos = rng.randint(1, len(offers))
+        offers.insert(pos, ["bad", rng.choice(kinds), rng.randrange(k), tu.frac(rng.choice([0.5, 1.0, 2.5]))])
+    return dict(sample_case(tns, trees, use_w, rng.choice(["GTH", 0.625, 0.75, 1.0]), False), op="refused", ages=ages,
+                ignore_lengths=rng.random() < 0.3, route=route, offers=offers, target_index=rng.randrange(k))
+
+
+def bad_offer(dendropy, case, tns, kind, rec, param):
+    """the tree of one refused offer, derived from the record of a good tree"""
+    if kind == "other-namespace":
+        other = namespace_of_case(dendropy, case)      # an equal but distinct namespace object
+        return tree_of_rec(dendropy, rec, other)[0]
+    t = tree_of_rec(dendropy, rec, tns)[0]
+    leaf = [nd for nd in tu.walk(t.seed_node) if not nd._child_nodes][0]
+    if kind == "non-ultrametric":
+        leaf.edge.length = float(tu.F(leaf.edge.length) + Fraction(param))
+    elif kind == "rooting":
+        t.is_rooted = not t.is_rooted
+    elif kind == "foreign-taxon":
+        leaf.taxon = dendropy.Taxon(label="not-in-the-namespace")
+    elif kind == "bad-weight":
+        t.weight = "x"
+    else:
+        raise ValueError(kind)
+    return t
+
+
+def run_refused(ctx, dendropy, case, pending):
+    tns, trees = trees_of_case(dendropy, case)
+    use_w, ages, nolen, route = case["use_weights"], case["ages"], case["ignore_lengths"], case["route"]
+    ctx.case(["refused", stable_hash(case)], True, kind="refused")
+    ctx.count("refused route=%s" % route)
+    ctx.count("refused flags use_tree_weights=%s ignore_node_ages=%s ignore_edge_lengths=%s" % (use_w, not ages, nolen))
+    kw = dict(use_tree_weights=use_w, ignore_node_ages=not ages, ignore_edge_lengths=nolen)
+    ta = None
+    if route.startswith("TreeArray"):
+        ta = dendropy.TreeArray(taxon_namespace=tns, **kw)
+        sd = ta.split_distribution
+        offer = ta.add_tree
+    elif route == "SplitDistribution":
+        sd = dendropy.SplitDistribution(taxon_namespace=tns, **kw)
+        offer = lambda t: sd.count_splits_on_tree(t, default_edge_length_value=0)
+    else:
+        sd = None       # derived from a TreeList holding the first accepted tree, then offered the rest
+        offer = None
+    accepted, events = [], []
+
+    def good_tree(i):
+        c = c04.clone(dendropy, trees[i])
+        c.weight = trees[i].weight
+        return c
+
+    def rec_tokens(r):
+        return "%s %s %s" % (r["rooted"], "N" if r["weight"] is None else r["weight"], " ".join(r["tree"]))
+    offers = [list(o) for o in case["offers"]]
+    if route == "TreeArray.add_trees":
+        # one batch up to and including the first refused offer; the call raises there and the caller offers the rest one by one
+        cut = next(j for j, o in enumerate(offers) if o[0] == "bad") + 1
+        batch = [good_tree(o[1]) if o[0] == "good" else bad_offer(dendropy, case, tns, o[1], case["trees"][o[2]], o[3]) for o in offers[:cut]]
+        try:
+            ta.add_trees(batch)
+            ctx.count("refused: offer accepted by the library (case not judged)")
+            return
+        except Exception as e:
+            if not common.is_library_exception(e):
+                raise
+        for o in offers[:cut]:
+            if o[0] == "good":
+                accepted.append(o[1])
+                events.append("A " + rec_tokens(case["trees"][o[1]]))
+            else:
+                ctx.count("refused offer kind=%s" % o[1])
+                events.append("X " + rec_tokens(case["trees"][o[2]]))
+        offers = offers[cut:]
+    for o in offers:
+        if o[0] == "good":
+            if sd is None:
+                tl = dendropy.TreeList(taxon_namespace=tns)
+                tl.append(good_tree(o[1]))
+                sd = tl.split_distribution(default_edge_length_value=0, **kw)
+                offer = lambda t: sd.count_splits_on_tree(t, default_edge_length_value=0)
+            else:
+                offer(good_tree(o[1]))
+            accepted.append(o[1])
+            events.append("A " + rec_tokens(case["trees"][o[1]]))
+            continue
+        if sd is None:
+            continue
+        bad = bad_offer(dendropy, case, tns, o[1], case["trees"][o[2]], o[3])
+        try:
+            offer(bad)
+        except AssertionError:
+            pass            # SplitDistribution refuses a foreign namespace by assertion
+        except Exception as e:
+            if not common.is_library_exception(e):
+                raise
+        else:
+            ctx.count("refused: offer accepted by the library (case not judged)")
+            return
+        ctx.count("refused offer kind=%s" % o[1])
+        events.append("X " + rec_tokens(case["trees"][o[2]]))
+    if not accepted or sd is None:
+        return
+    judge_after_refusals(ctx, dendropy, case, tns, ta, sd, accepted, [trees[i] for i in accepted], events, pending)
+
+
+def judge_after_refusals(ctx, dendropy, case, tns, ta, sd, idx, trees, events, pending):
+    """every observable of a collection that was offered more trees than it took, against the trees it TOOK (from scratch)"""
+    use_w, ages, nolen, thr = case["use_weights"], case["ages"], case["ignore_lengths"], case["threshold"]
+    what = "%s after the offers %s" % (case["route"], " ".join(e[0] for e in events))
+    thr_v, thr_f = thr_value(dendropy, thr), thr_exact(dendropy, thr)
+    fr, _ = oracle_freqs(trees, use_w)
+    n = len(trees)
+    W = sum((weight_of(t, use_w) for t in trees), Fraction(0))
+    members = [tns.accession_index(t) for t in tns]
+    F, Fmask = set(members), members_mask(tns)
+    crooted = all(t.is_rooted is True for t in trees)
+    if ta is not None and len(ta) != n:
+        ctx.fail("refused", "%s: the array holds %d trees, it accepted %d" % (what, len(ta), n), case)
+        return
+    got = {s: sd[s] for s in sd}
+    if set(got) != set(fr):
+        ctx.fail("frequency", "%s: splits reported %s differ from those of the trees held" % (what, sorted(set(got) ^ set(fr))[:6]), case)
+        return
+    norm = W if W != 0 else Fraction(n)
+    for s, f in fr.items():
+        if not close(got[s], float(f), 1e-12) or (f == 1 and got[s] != 1.0):
+            ctx.fail("frequency", "%s: frequency of split %d = %r, weighted fraction of the %d trees held that contain it = %s" % (what, s, got[s], n, f), case)
+            return
+        if not close(sd.split_counts[s], float(f * norm), 1e-12):
+            ctx.fail("refused", "%s: split_counts[%d] = %r, weighted number of held trees containing it = %s" % (what, s, sd.split_counts[s], f * norm), case)
+            return
+    lens, age = {}, {}
+    for t in trees:
+        for s, l in c04.split_lengths(t).items():
+            lens.setdefault(s, []).append(l)
+        if ages:
+            masks = tu.leafset_masks(t)
+            for nd in tu.walk(t.seed_node):
+                age.setdefault(masks[id(nd)], []).append(tip_age(nd))
+    if nolen:
+        if any(v for v in sd.split_edge_lengths.values()):
+            ctx.fail("refused", "%s: edge lengths were collected although ignore_edge_lengths is set" % what, case)
+            return
+    else:
+        for s, vals in lens.items():
+            have = sorted(tu.F(v) for v in sd.split_edge_lengths.get(s, []))
+            if have != sorted(vals):
+                ctx.fail("refused", "%s: split_edge_lengths[%d] = %s, the values over the trees held are %s" % (what, s, [str(v) for v in have], [str(v) for v in sorted(vals)]), case)
+                return
+    if ages:
+        for s, vals in age.items():
+            have = sorted(tu.F(v) for v in sd.split_node_ages.get(s, []))
+            if have != sorted(vals):
+                ctx.fail("refused", "%s: split_node_ages[%d] = %s, the ages over the trees held are %s" % (what, s, [str(v) for v in have], [str(v) for v in sorted(vals)]), case)
+                return
+
+    def annotations_ok(tree, label):
+        for nd, s in node_splits(tree)[0]:
+            want = fr.get(s, Fraction(0))
+            sup = getattr(nd, "support", None)
+            if sup is None or not close(sup, float(want), 1e-12):
+                ctx.fail("support", "%s, %s: node of split %d carries support %r, frequency over the trees held is %s" % (what, label, s, sup, want), case)
+                return False
+            if not nolen and s in lens:
+                prob = summary_problem(nd.edge, "length_", lens[s])
+                if prob:
+                    ctx.fail("summary", "%s, %s: edge of split %d: %s" % (what, label, s, prob), case)
+                    return False
+            if ages and s in age:
+                prob = summary_problem(nd, "age_", age[s])
+                if prob:
+                    ctx.fail("summary", "%s, %s: node of split %d: age %s" % (what, label, s, prob), case)
+                    return False
+        return True
+    holder = ta if ta is not None else sd
+    tgt = tree_of_rec(dendropy, case["trees"][idx[case["target_index"] % len(idx)]], tns)[0]
+    holder.summarize_splits_on_tree(tgt)
+    if not annotations_ok(tgt, "summarize_splits_on_tree"):
+        return
+    con = holder.consensus_tree(min_freq=thr_v)
+    probs = tu.arborescence_problems(con)
+    tips = [nd for nd in tu.walk(con.seed_node) if not nd._child_nodes]
+    if probs or sorted(tns.accession_index(nd.taxon) for nd in tips if nd.taxon is not None) != sorted(members) or any(nd.taxon is None for nd in tips):
+        ctx.fail("consensus", "%s: consensus tree malformed or not spanning the namespace: %s" % (what, probs), case)
+        return
+    if bool(con.is_rooted) != crooted:
+        ctx.fail("consensus", "%s: consensus has rooting %s, the trees held are %s" % (what, con.is_rooted, "rooted" if crooted else "not rooted"), case)
+    if not annotations_ok(con, "consensus_tree"):
+        return
+    cand = {canon_split(s, Fmask, crooted) for s, f in fr.items() if f >= thr_f}
+    cand = {c for c in cand if nontrivial(c, F, crooted)}
+    have = {canon_split(m, Fmask, crooted) for m in tu.leafset_masks(con).values()}
+    have = {c for c in have if nontrivial(c, F, crooted)}
+    if thr_f > Fraction(1, 2):
+        if have != cand:
+            ctx.fail("consensus", "%s: consensus at threshold %s has non-trivial splits %s, those with frequency >= threshold over the trees held are %s" % (
+                what, thr_label(thr), sorted(have), sorted(cand)), case)
+            return
+    elif not have <= cand or any(not compatible(x, y, F, crooted) for x in have for y in have) \
+            or any(all(compatible(c, r, F, crooted) for r in have) for c in cand - have):
+        ctx.fail("consensus", "%s: consensus at threshold %s with splits %s is not a maximal compatible subset of %s" % (what, thr_label(thr), sorted(have), sorted(cand)), case)
+        return
+    # collapse a held tree's weak edges
+    tgt2 = tree_of_rec(dendropy, case["trees"][idx[case["target_index"] % len(idx)]], tns)[0]
+    tgt2.encode_bipartitions()
+    want_internal = sorted(s for s in internal_splits(tgt2) if fr.get(s, Fraction(0)) >= Fraction(3, 4))
+    before = root_tip(tgt2)
+    try:
+        holder.collapse_edges_with_less_than_minimum_support(tgt2, min_freq=0.75)
+        if sorted(internal_splits(tgt2)) != want_internal or root_tip(tgt2) != before:
+            ctx.fail("collapse", "%s: internal edges left after collapsing below 3/4: %s, those with frequency >= 3/4 over the trees held: %s" % (
+                what, sorted(internal_splits(tgt2)), want_internal), case)
+            return
+    except Exception as e:
+        if not common.is_library_exception(e):
+            raise
+        ctx.fail("collapse", "%s: collapse_edges_with_less_than_minimum_support raised %s: %s" % (what, type(e).__name__, str(e)[:100]), case)
+        return
+    if ta is not None:
+        for kind in ("prod", "sum"):
+            scores, best_i = (ta.calculate_log_product_of_split_supports() if kind == "prod" else ta.calculate_sum_of_split_supports())
+            if len(scores) != n or best_i is None or scores[best_i] != max(scores):
+                ctx.fail("mcc-argmax", "%s: reported maximiser %s does not attain the maximum of the reported %s scores %s" % (what, best_i, kind, scores), case)
+                return
+            for i, t in enumerate(trees):
+                nsp, tl_mask = node_splits(t)
+                Ft = c01.bits_of(tl_mask)
+                sc = 0.0
+                for s in sorted({s for _nd, s in nsp}):
+                    A = c01.bits_of(s) & Ft
+                    if s == tl_mask or not (len(A) <= 1 or len(Ft - A) <= 1):
+                        if fr.get(s):
+                            sc += math.log(float(fr[s])) if kind == "prod" else float(fr[s])
+                if not close(scores[i], sc, 1e-9):
+                    ctx.fail("mcc-score", "%s: %s-of-support score of held tree %d reported as %r, from the frequencies it is %r" % (what, kind, i, scores[i], sc), case)
+                    return
+        best = ta.maximum_product_of_split_support_tree()
+        canon = c01.canon_rooted if best.is_rooted else c01.canon_unrooted
+        tops = argmax_set(ta.calculate_log_product_of_split_supports()[0])
+        if not any(canon(best) == canon(trees[i]) for i in tops):
+            ctx.fail("mcc-topology", "%s: maximum product-of-support tree has topology %s, the held trees attaining the maximum score are %s" % (
+                what, canon(best), [canon(trees[i]) for i in tops]), case)
+            return
+    else:
+        probe = c04.clone(dendropy, trees[0])
+        pm = tu.leafset_masks(trees[0])
+        want_sum = sum((fr.get(pm[id(nd)], Fraction(0)) for nd in tu.walk(trees[0].seed_node) if nd._child_nodes), Fraction(0))
+        if ages:
+            got_sum = sd.sum_of_split_support_on_tree(probe)
+            if not close(got_sum, float(want_sum)):
+                ctx.fail("support", "%s: sum_of_split_support_on_tree = %r, sum of the node frequencies over the trees held is %s" % (what, got_sum, want_sum), case)
+                return
+    # the totals themselves (last: what the statement speaks about is judged first)
+    if sd.total_trees_counted != n or not close(sd.sum_of_tree_weights, float(W), 1e-12):
+        ctx.fail("refused", "%s: total_trees_counted = %r and sum_of_tree_weights = %r, the collection holds %d trees of total weight %s" % (
+            what, sd.total_trees_counted, sd.sum_of_tree_weights, n, W), case)
+        return
+    if set(sd.tree_rooting_types_counted) != {bool(t.is_rooted) for t in trees}:
+        ctx.fail("refused", "%s: rooting states counted %s, those of the trees held %s" % (
+            what, sorted(sd.tree_rooting_types_counted, key=str), sorted({bool(t.is_rooted) for t in trees})), case)
+        return
+    # correspondence: the same history (refused offers included) through the model of the caches; frequencies and summaries of every split
+    answers, evs = [], list(events)
+    for s in sorted(fr):
+        evs.append("F %d" % s)
+        answers.append(("F", s, sd[s]))
+    evs.append("F %d" % (max(fr) + 2))
+    answers.append(("F", max(fr) + 2, sd[max(fr) + 2]))
+    if not nolen:
+        table = sd.split_edge_length_summaries
+        for s in sorted(fr):
+            evs.append("S %d" % s)
+            answers.append(("S", s, table.get(s)))
+    pending.append(("hist %d %d %s" % (use_w, len(evs), " ".join(evs)), case, {"hist": answers}))
+
+
 # ------------------------------------------------------------------ collapse
 def gen_collapse(ctx, dendropy):
     rng = ctx.rng
@@ -1401,6 +1726,10 @@ def gen_merge(ctx, dendropy):
     else:
         x, y = rng.choice([("a", "b"), ("b", "a")])
         script.append(["merge", kind, x, x, y])
+    if rng.random() < 0.3:
+        # an EMPTY array built with the opposite use_tree_weights takes everything, settings included, from its first merge partner
+        script.append(["new", "e", [], not use_w])
+        script.append(["merge", rng.choice(["+=", "update", "extend"]), "e", "e", "a"])
     script.append(["check"])
     names = ["a", "b"] + (["c"] if kind == "+" else [])
     half = max(1, len(C) // 2)
@@ -1530,8 +1859,8 @@ def run_merge(ctx, dendropy, case, pending):
     ctx.case(["merge", stable_hash(case)], True, kind="merge")
     cols, given = {}, {}
 
-    def new_array():
-        return dendropy.TreeArray(taxon_namespace=tns, use_tree_weights=use_w, ignore_node_ages=not ages)
+    def new_array(flag=None):
+        return dendropy.TreeArray(taxon_namespace=tns, use_tree_weights=use_w if flag is None else flag, ignore_node_ages=not ages)
 
     def add(name, idxs):
         for i in idxs:
@@ -1541,7 +1870,9 @@ def run_merge(ctx, dendropy, case, pending):
             given[name].append(i)
     for step in case["script"]:
         if step[0] == "new":
-            cols[step[1]], given[step[1]] = new_array(), []
+            cols[step[1]], given[step[1]] = new_array(step[3] if len(step) > 3 else None), []
+            if len(step) > 3:
+                ctx.count("merge into an empty array built with the other use_tree_weights")
             add(step[1], step[2])
         elif step[0] == "add":
             add(step[1], step[2])
@@ -1584,6 +1915,8 @@ def gen_case(ctx, dendropy, op):
         return gen_more(ctx, dendropy)
     if op == "annot":
         return gen_annot(ctx, dendropy)
+    if op == "refused":
+        return gen_refused(ctx, dendropy)
     return gen_collapse(ctx, dendropy)
 
 
@@ -1603,6 +1936,8 @@ def run_case(ctx, dendropy, case, pending, pending_c):
             run_merge(ctx, dendropy, case, pending)
         elif op == "annot":
             run_annot(ctx, dendropy, case, pending)
+        elif op == "refused":
+            run_refused(ctx, dendropy, case, pending)
         else:
             raise ValueError("unknown op %r" % (op,))
     except Exception as e:
@@ -1649,7 +1984,7 @@ def search(ctx, broken):
             break
         if __import__("time").time() - t0 > ctx.pick(25, 240):
             break
-        op = ["attain", "annot", "collapse", "more", "summ", "incremental"][i % 6]
+        op = ["attain", "annot", "collapse", "more", "summ", "incremental", "refused"][i % 7]
         case = gen_case(ctx, dendropy, op)
         if case is None:
             continue
